@@ -191,13 +191,32 @@ def c16_2(ctx: Ctx) -> RuleResult:
                 ok = f.cls is ee and f.name == "__init__"
                 res.add(f, call, "generators are created only in EnsembleEvaluator.__init__ (one per evaluator, hence per step run)", ok,
                         "" if ok else "a generator created here is shared or re-created outside the per-run evaluator", construct=f"{f.qualname.split('.')[-2]}.{f.name}: default_rng")
+    # the evaluator used by a run is the one constructed in that run (never a kept one)
+    from .c14 import step_run_methods
+
+    for run in step_run_methods(ctx):
+        for call in calls_in(run):
+            t = X.at(run, call)
+            used = None
+            if t[0] == "call":
+                for k, v in t[3]:
+                    if k == "ensemble_evaluator":
+                        used = v
+                if t[1][0] == "attr" and t[1][2] == "calculate":
+                    used = t[1][1]
+            if used is None:
+                continue
+            ok = used[0] == "call" and used[1] == ("global", ee.qualname)
+            res.add(run, call, "the ensemble evaluator used here is constructed unconditionally in this very run (its generator starts from the seed)", ok,
+                    "" if ok else f"the evaluator is `{show(used, 70)}`: an evaluator (generator, sampler state, function cache) kept from an earlier run can be reused, so a re-run continues the random stream",
+                    construct=f"{run.cls.name}.run: evaluator of {norm_stmt(call)[:40]}")
     # EnsembleEvaluator objects are created inside step runs (fresh generator per run)
     init = ee.methods["__init__"]
     for caller, call in ctx.cg.callers(init):
         ok = caller.name == "run" and caller.cls is not None and ctx.repo.is_subclass(caller.cls, "ropt.plugins.plan.base.PlanStep")
         res.add(caller, call, "EnsembleEvaluator is constructed inside a plan step's run (per run, not shared)", ok,
                 "" if ok else "an evaluator (and its generator) constructed here outlives a single run", construct=f"{caller.qualname.split('.')[-2]}.{caller.name}: EnsembleEvaluator()")
-    res.floor = 6
+    res.floor = 8
     return res
 
 
@@ -271,6 +290,25 @@ def shared_state_writes(ctx: Ctx) -> list[tuple[Func, ast.AST, str]]:
                         out.append((f, n, "store into the class object (state shared by all instances)"))
                     elif isinstance(t, ast.Attribute) and isinstance(t.value, ast.Attribute) and t.value.attr == "__class__":
                         out.append((f, n, "store into the class object through __class__"))
+        def aliases_module_object(expr: ast.AST):
+            """The expression denotes (part of) a module-level object of the package,
+            possibly through local aliases: returns its qualified name."""
+            t = ctx.X.at(f, expr)
+            for a in (t[1] if t[0] == "phi" else (t,)):
+                r = a
+                while r[0] in ("sub", "attr", "iter", "item"):
+                    r = r[1]
+                if r[0] == "call" and r[1][0] == "attr" and r[1][2] in ("get", "setdefault", "values", "items") and r[1][1][0] in ("global", "sub", "attr"):
+                    r = r[1][1]
+                    while r[0] in ("sub", "attr"):
+                        r = r[1]
+                if r[0] == "global":
+                    modname, _, cname = r[1].rpartition(".")
+                    m_ = ctx.repo.modules.get(modname)
+                    if m_ is not None and cname in m_.constants and not isinstance(m_.constants[cname], ast.Constant):
+                        return r[1]
+            return None
+
         for call in calls_in(f):
             if isinstance(call.func, ast.Attribute) and call.func.attr in MUTATORS:
                 base = call.func.value
@@ -278,6 +316,22 @@ def shared_state_writes(ctx: Ctx) -> list[tuple[Func, ast.AST, str]]:
                     base = base.value
                 if isinstance(base, ast.Name) and is_global_name(base.id) and (base.id in mod.constants or base.id in mod.classes):
                     out.append((f, call, f"`.{call.func.attr}()` on module-level / class-level object `{base.id}`"))
+                elif isinstance(base, ast.Name) and not is_global_name(base.id):
+                    q = aliases_module_object(call.func.value)
+                    if q is not None:
+                        out.append((f, call, f"`.{call.func.attr}()` on `{ast.unparse(call.func.value)}`, an alias of the module-level object `{q}`"))
+        for n in nodes_in(f, (ast.Assign, ast.AugAssign)):
+            targets = n.targets if isinstance(n, ast.Assign) else [n.target]
+            for t in targets:
+                if isinstance(t, ast.Subscript):
+                    base = t.value
+                    root = base
+                    while isinstance(root, (ast.Subscript, ast.Attribute)):
+                        root = root.value
+                    if isinstance(root, ast.Name) and not is_global_name(root.id):
+                        q = aliases_module_object(base)
+                        if q is not None:
+                            out.append((f, n, f"item store into `{ast.unparse(base)}`, an alias of the module-level object `{q}`"))
     return out
 
 
